@@ -19,9 +19,11 @@ TRUSTED = pc.TRUSTED_COMMON
 ASSUMPTIONS = ['the connection is abandoned after the first error (observations stop there)', 'client machine: .request is a GET request (API precondition)']
 D13 = 'D13-411-buffer-peek'
 D14 = 'D14-lf-line-end-mode'
+D34 = 'D34-truncated-header-error-timing'
 WITNESSES = [
 	(D13, {'k': 'frag', 'kind': 'server', 's': b'GET / HTTP/1.1\r\nHost: x\r\n\r\nGET / HTTP/1.1\r\nHost: x\r\n\r\n'.hex(), 'cuts': [[], list(range(1, 52))]}),
 	(D14, {'k': 'frag', 'kind': 'server', 's': b'GET / HTTP/1.1\nHost: x\r\n\r\n'.hex(), 'cuts': [[], list(range(1, 26))]}),
+	(D34, {'k': 'frag', 'kind': 'server', 's': b'GET / HTTP/1.1\r\nBad\r\nX\r\n Y'.hex(), 'cuts': [[], [22]]}),
 ]
 
 
@@ -93,6 +95,13 @@ def classify(c, o, fail):
 		return D13
 	if any(r.get('lf_mode') for r in o['runs']):
 		return D14
+	if fail.startswith('first error differs'):
+		# D34: one fragmentation already refused an invalid header line (400) while another is still waiting inside the
+		# unfinished header section of the same message (it has not examined that line yet)
+		sums = [pc.summary(r) for r in o['runs']]
+		errs = set(e for d, e, l in sums)
+		if errs == {None, 400} and all(r['final']['started'] and not r['final']['hdr_done'] for r in o['runs'] if 'final' in r) and len(set(len(d) for d, e, l in sums)) == 1:
+			return D34
 	return None
 
 
